@@ -509,10 +509,10 @@ func (e *Engine) bitop(st *State, op token.Token, x, y Val, rt types.Type) Val {
 			}
 		}
 	}
-	name := map[token.Token]string{token.AND: "bvand", token.OR: "bvor_", token.XOR: "bvxor_", token.AND_NOT: "bvandnot", token.SHL: "bvshl_", token.SHR: "bvshr_"}[op]
+	name := map[token.Token]string{token.AND: "ubvand", token.OR: "ubvor", token.XOR: "ubvxor", token.AND_NOT: "ubvandnot", token.SHL: "ubvshl", token.SHR: "ubvshr"}[op]
 	e.d.fun(name, []Sort{SInt, SInt}, SInt)
 	if op == token.AND {
-		e.d.axiomKeyed("(forall ((a Int) (b Int)) (! (=> (and (>= a 0) (>= b 0)) (and (<= 0 (bvand a b)) (<= (bvand a b) a) (<= (bvand a b) b))) :pattern ((bvand a b))))", "bvand")
+		e.d.axiomKeyed("(forall ((a Int) (b Int)) (! (=> (and (>= a 0) (>= b 0)) (and (<= 0 (ubvand a b)) (<= (ubvand a b) a) (<= (ubvand a b) b))) :pattern ((ubvand a b))))", "ubvand")
 	}
 	v := term(app(name, x.T, y.T), SInt, rt)
 	if mx, ok := uintMax(rt); ok {
